@@ -24,6 +24,7 @@ import (
 	schedulingv1beta1 "volcano.sh/apis/pkg/apis/scheduling/v1beta1"
 	"volcano.sh/volcano/pkg/scheduler/api"
 	"volcano.sh/volcano/pkg/scheduler/cache"
+	"volcano.sh/volcano/pkg/scheduler/framework"
 	"volcano.sh/volcano/pkg/scheduler/util"
 )
 
@@ -146,7 +147,55 @@ type PodSpec struct {
 	CPU, Mem, GPU        int64
 }
 
-type PGSpec struct{ ID, UID, Queue, Min int64 }
+// PGSpec: Conds = number of status conditions the PodGroup already carries
+// (written by earlier scheduling cycles), Ann = it has annotations.
+type PGSpec struct {
+	ID, UID, Queue, Min int64
+	Conds               int64
+	Ann                 bool
+}
+
+// NodeX is a delivered version of a Node: the resources of sched.NodeSpec plus
+// the labels / annotations / spec fields NodeInfo reads or ignores.
+type NodeX struct {
+	sched.NodeSpec
+	OverCPUSet, OverMemSet   bool  // annotations volcano.sh/oversubscription-cpu / -memory present
+	OverCPU, OverMem         int64 // milli-cpu, bytes
+	OverNode, Offline        bool  // label volcano.sh/oversubscription, annotation volcano.sh/offline-job-evicting
+	Zone                     int64 // label volcano.sh/revocable-zone (0 = absent)
+	Unsched, Tainted, NotRdy bool  // spec.unschedulable, a NoSchedule taint, Ready condition false: ignored by the cache
+}
+
+func (n NodeX) Object() *v1.Node {
+	o := n.NodeSpec.Object()
+	o.Labels = map[string]string{}
+	o.Annotations = map[string]string{}
+	if n.OverNode {
+		o.Labels["volcano.sh/oversubscription"] = "true"
+	}
+	if n.Zone != 0 {
+		o.Labels["volcano.sh/revocable-zone"] = fmt.Sprintf("z%d", n.Zone)
+	}
+	if n.Offline {
+		o.Annotations["volcano.sh/offline-job-evicting"] = "true"
+	}
+	if n.OverCPUSet {
+		o.Annotations["volcano.sh/oversubscription-cpu"] = fmt.Sprint(n.OverCPU)
+	}
+	if n.OverMemSet {
+		o.Annotations["volcano.sh/oversubscription-memory"] = fmt.Sprint(n.OverMem)
+	}
+	o.Spec.Unschedulable = n.Unsched
+	if n.Tainted {
+		o.Spec.Taints = []v1.Taint{{Key: "verif", Effect: v1.TaintEffectNoSchedule}}
+	}
+	st := v1.ConditionTrue
+	if n.NotRdy {
+		st = v1.ConditionFalse
+	}
+	o.Status.Conditions = []v1.NodeCondition{{Type: v1.NodeReady, Status: st}}
+	return o
+}
 
 func QueueName(q int64) string {
 	switch q {
@@ -304,7 +353,7 @@ func (c *Ctl) PodDelete(id int64) {
 	delete(c.pods, id)
 }
 
-func (c *Ctl) NodeEvent(n sched.NodeSpec) {
+func (c *Ctl) NodeEvent(n NodeX) {
 	if err := c.SC.AddOrUpdateNode(n.Object()); err != nil {
 		panic(err)
 	}
@@ -317,6 +366,14 @@ func (c *Ctl) PGEvent(g PGSpec) {
 			ResourceVersion: c.nextRV()},
 		Spec:   schedulingv1beta1.PodGroupSpec{MinMember: int32(g.Min), Queue: QueueName(g.Queue)},
 		Status: schedulingv1beta1.PodGroupStatus{Phase: schedulingv1beta1.PodGroupInqueue},
+	}
+	if g.Ann {
+		pg.Annotations = map[string]string{"verif.io/note": "a", "volcano.sh/preemptable": "false"}
+	}
+	condTypes := []schedulingv1beta1.PodGroupConditionType{schedulingv1beta1.PodGroupUnschedulableType, schedulingv1beta1.PodGroupScheduled}
+	for i := int64(0); i < g.Conds && i < 2; i++ {
+		pg.Status.Conditions = append(pg.Status.Conditions, schedulingv1beta1.PodGroupCondition{
+			Type: condTypes[i], Status: v1.ConditionTrue, TransitionID: "earlier-cycle", Reason: "NotEnoughResources", Message: "from an earlier cycle"})
 	}
 	if old, ok := c.pgs[g.ID]; ok {
 		c.SC.UpdatePodGroupV1beta1(old, pg)
@@ -337,7 +394,8 @@ func (c *Ctl) PGDelete(id int64) {
 }
 
 func (c *Ctl) QueueEvent(q int64) {
-	obj := &schedulingv1beta1.Queue{ObjectMeta: metav1.ObjectMeta{Name: QueueName(q), ResourceVersion: c.nextRV()},
+	obj := &schedulingv1beta1.Queue{ObjectMeta: metav1.ObjectMeta{Name: QueueName(q), ResourceVersion: c.nextRV(),
+		Annotations: map[string]string{"verif.io/note": "q"}},
 		Spec: schedulingv1beta1.QueueSpec{Weight: 1}}
 	if old, ok := c.queues[q]; ok {
 		c.SC.UpdateQueueV1beta1(old, obj)
@@ -485,7 +543,11 @@ func EncNodeFull(n *api.NodeInfo, id int64) []int64 {
 	if n.Node != nil {
 		has = 1
 	}
-	out := []int64{id, has}
+	zone := int64(0)
+	if n.RevocableZone != "" {
+		zone = sched.ParseID(n.RevocableZone)
+	}
+	out := []int64{id, has, b2i(n.OversubscriptionNode), b2i(n.OfflineJobEvicting), zone}
 	for _, r := range []*api.Resource{n.Idle, n.Used, n.Releasing, n.Pipelined, n.Allocatable} {
 		out = append(out, sched.EncRes(r)...)
 	}
@@ -497,6 +559,13 @@ func EncNodeFull(n *api.NodeInfo, id int64) []int64 {
 		ts = append(ts, t)
 	}
 	return append(out, encTasks(ts)...)
+}
+
+func b2i(b bool) int64 {
+	if b {
+		return 1
+	}
+	return 0
 }
 
 func sortedJobs(m map[api.JobID]*api.JobInfo) []*api.JobInfo {
@@ -683,7 +752,51 @@ func scrambleTask(t *api.TaskInfo) {
 // objects themselves (*v1.Pod, *v1.Node), which clones share by design and
 // which the scheduler treats as immutable, are left alone.
 func MutateSnapshot(ci *api.ClusterInfo) {
+	sessionWrites(ci)
+	mustf(DeepMutate(ci) > 0 || (len(ci.Jobs) == 0 && len(ci.Nodes) == 0 && len(ci.Queues) == 0), "deep mutation wrote nothing")
+	replaceFields(ci)
+}
+
+// sessionWrites does to the snapshot what actions and plugins do through the
+// session API between OpenSession and CloseSession.
+func sessionWrites(ci *api.ClusterInfo) {
+	ssn := &framework.Session{Jobs: ci.Jobs, Nodes: ci.Nodes, Queues: ci.Queues}
+	for _, j := range sortedJobs(ci.Jobs) {
+		if j.PodGroup != nil {
+			// refresh a condition of a type the PodGroup may already carry (overwritten in place),
+			// and add one it does not carry (appended)
+			for _, ty := range []scheduling.PodGroupConditionType{scheduling.PodGroupUnschedulableType, scheduling.PodGroupConditionType("VerifNew")} {
+				if err := ssn.UpdatePodGroupCondition(j, &scheduling.PodGroupCondition{Type: ty, Status: v1.ConditionFalse,
+					TransitionID: "this-cycle", Reason: "verif", Message: "written by the cycle"}); err != nil {
+					panic(err)
+				}
+			}
+			j.PodGroup.Status.Phase = scheduling.PodGroupRunning
+		}
+		for _, t := range jobTasks([]*api.JobInfo{j}) {
+			j.UpdateTaskStatus(t, api.Allocated)
+		}
+		j.Allocated.Add(api.NewResource(v1.ResourceList{}).Add(j.TotalRequest))
+	}
+	for _, n := range sortedNodes(ci.Nodes) {
+		for _, t := range n.Tasks {
+			n.RemoveTask(t)
+			t.Status = api.Pipelined
+			_ = n.AddTask(t)
+			break
+		}
+		n.Idle.Add(n.Used)
+		n.Releasing.Add(n.Used)
+		n.Pipelined.Add(n.Used)
+	}
+}
+
+// replaceFields replaces / empties the containers themselves.
+func replaceFields(ci *api.ClusterInfo) {
 	for _, j := range ci.Jobs {
+		if j == nil { // entries added by DeepMutate
+			continue
+		}
 		j.MinAvailable += 5
 		j.Queue = "q999"
 		j.Priority += 3
@@ -701,6 +814,9 @@ func MutateSnapshot(ci *api.ClusterInfo) {
 			}
 		}
 		for _, t := range j.Tasks {
+			if t == nil {
+				continue
+			}
 			scrambleTask(t)
 		}
 		for role := range j.TaskMinAvailable {
@@ -708,6 +824,9 @@ func MutateSnapshot(ci *api.ClusterInfo) {
 		}
 		j.TaskMinAvailable["verif"] = 1
 		for _, sj := range j.SubJobs {
+			if sj == nil {
+				continue
+			}
 			sj.MinAvailable += 2
 			for uid := range sj.Tasks {
 				delete(sj.Tasks, uid)
@@ -734,6 +853,9 @@ func MutateSnapshot(ci *api.ClusterInfo) {
 		j.Tasks["t998"] = &api.TaskInfo{UID: "t998", Job: j.UID, Resreq: api.EmptyResource(), InitResreq: api.EmptyResource()}
 	}
 	for _, n := range ci.Nodes {
+		if n == nil {
+			continue
+		}
 		for _, r := range []*api.Resource{n.Idle, n.Used, n.Releasing, n.Pipelined, n.Allocatable, n.Capacity, n.OversubscriptionResource} {
 			scramble(r)
 		}
@@ -741,6 +863,9 @@ func MutateSnapshot(ci *api.ClusterInfo) {
 		n.Name = "n999"
 		n.BindGeneration += 5
 		for _, t := range n.Tasks {
+			if t == nil {
+				continue
+			}
 			scrambleTask(t)
 		}
 		for k := range n.Tasks {
@@ -751,6 +876,9 @@ func MutateSnapshot(ci *api.ClusterInfo) {
 		n.ImageStates["verif"] = nil
 	}
 	for _, q := range ci.Queues {
+		if q == nil {
+			continue
+		}
 		q.Weight += 4
 		q.Name = "q999"
 		q.UID = "q999"
